@@ -138,6 +138,9 @@ class DateTimeArith(Sub):
     rule = ("non-trivial: day clamped, or year/month boundary crossed by the month shift, or landing wall time not unique, "
             "or a transition between start and result")
 
+    def describe(self, case):
+        return {"start_wall": T.wall_from_us(case["w"]).isoformat(), "zone": case["zone"], "amount": case["amt"], "start_built_by": case.get("prov")}
+
     def strategy(self, ctx):
         return dt_case()
 
